@@ -31,3 +31,24 @@ Definition exact_b (bi : list name) (ns : list (list name)) (p : program) : bool
 
 Definition stage_of (p : program) : nat :=
   if s1_block p then 1 else if s2_block p then 2 else 0.
+
+(* unused_sound on one program: no reported-unused import is the binding of a read *)
+Definition is_bound_to (l : nat) (i : import) (r : res) : bool :=
+  match r with
+  | Bound (BImp l' i') => Nat.eqb l l' && dotted_eqb (fst i) (fst i') && dotted_eqb (snd i) (snd i')
+  | _ => false
+  end.
+Definition unused_sound_b (bi : list name) (ns : list (list name)) (p : program) : bool :=
+  let tr := pysem bi ns p in
+  forallb (fun u : nat * import => negb (existsb (fun r : rd => is_bound_to (fst u) (snd u) (snd r)) tr))
+          (snd (finder bi ns true p)).
+(* which unused-side fragment the program is in: 1 = u1_block (with distinct events), 2 = u2_block + imports_once *)
+Fixpoint nodup_events (l : list (nat * import)) : bool :=
+  match l with
+  | [] => true
+  | x :: r => negb (existsb (fun y => Nat.eqb (fst x) (fst y) && dotted_eqb (fst (snd x)) (fst (snd y))
+                                      && dotted_eqb (snd (snd x)) (snd (snd y))) r) && nodup_events r
+  end.
+Definition ustage_of (bi : list name) (ns : list (list name)) (p : program) : nat :=
+  if u1_block p && nodup_events (imp_events (bsrcs_block false p)) then 1
+  else if u2_block p && imports_once bi ns p then 2 else 0.
